@@ -1,6 +1,6 @@
 """C17 — iteration durations are measured around the body and aggregated exactly."""
 ID = "C17"
-PROPS = ["F1Verif.Props.C17", "F1Verif.Props.FactsC17", "F1Verif.Props.RefineC17"]
+PROPS = ["F1Verif.Props.C17", "F1Verif.Props.FactsC17", "F1Verif.Props.RefineC17", "F1Verif.Props.RefineC17Run"]
 RULE = ("engine A on progress.Stats: random histories of Record(success|fail|dropped|unknown, d>0), Snapshot and Total "
         "(quiet periods, equal / increasing / decreasing durations, extreme values), outputs = every returned snapshot; "
         "compared with the code-shaped model and evaluated against the list-based reference aggregate (expectSnap, proved "
